@@ -9,6 +9,7 @@ TRUST = ('trusted: library models (num-bigint as wide bit-vectors, Vec/slice/ite
 TECH = 'symbolic execution of rustc MIR (regenerated from /repo each run) + SMT (z3), bounded; counterexamples replayed natively'
 
 CLAIMS = {
+ 'C05': ('integer-mode clause only, modular: NewStyleIntConversion::{new,drop,setting} and the two functions that create the guard (compile_file, DefaultCompilerOpts::compile_program) are executed from MIR, unwind edges included, with a symbolic initial mode and a symbolic dialect int_fix; every other callee is a stub that nondeterministically returns Ok/Err or panics and preserves the mode. z3 decides that the mode equals int_fix while callees run and equals the initial mode on every exit, and that nested guards restore LIFO. Partial: the counter / hash-order / thread clauses are not decided', 'DESIGN.md §4 C05'),
  'C09': ('bounded symbolic execution of the real printers and readers from MIR. Classic pair: disassemble (ir_for_atom, write_ir, pybytes_repr, ...) -> assemble (IRReader, consume_*, interpret_atom_value, assemble_from_ir) for one atom of 0..3 (thorough 0..4) arbitrary bytes alone, as list head, second element and dotted tail, operator versions 0,1,2. Modern: impl Display for SExp on what convert_from_clvm_rs yields (and on quoted strings with either quote) -> parse_sexp -> convert_to_clvm_rs and -> classic assemble, fixed integer mode. z3 decides byte identity on every path', 'DESIGN.md §4 C09'),
  'C15': ('bounded symbolic execution of the real reader MIR (parse_sexp, ParsePartialResult::{new,push,finalize}, parse_sexp_step, make_atom, from_hex, normalize_int, enlist, make_cons, restructure_list, Srcloc::{advance,ext}, combine_src_location, ...) on every tab-free byte string of length 0..3 (thorough 0..4): z3 partitions the inputs by the byte classes the code distinguishes, and on every path each leaf location is compared with the token extent and each list location with the parenthesis extent recomputed from the bytes by an independent reference reader; error locations must lie within the text', 'DESIGN.md §4 C15'),
  'C20': ('symbolic execution of the real table code from MIR (KW_PAIRS const, the six lazy_static KEYWORD_* initialisers, keyword_from_atom/to_atom, prims(), prim_map()) and of the real dispatchers (OriginalDialect::op from the repo, ChiaDialect::op from clvmr\'s MIR, with the flags DefaultProgramRunner uses per operators_version) on a symbolic 1-byte and a symbolic 4-byte opcode; z3 decides that every table opcode reaches an implementation, tables are mutually inverse per version, versions only add, and the modern primitive list agrees with the classic tables in both directions. Finite domain: same guarantee as exhaustive checking', 'DESIGN.md §4 C20'),
